@@ -326,6 +326,8 @@ theorem argStep_inv (mk : Text → Bool → Bool → Bool → Res Term)
   split
   · exact ⟨by simp, fun st' h => by cases h; exact hinv.push ch _ rfl (Or.inl rfl)⟩
   split
+  · exact ⟨by simp, fun st' h => by cases h; exact hinv.push ch _ rfl (Or.inl rfl)⟩
+  split
   · exact argStepTop_inv mk hmk ch rest st hinv
   · exact ⟨by simp, fun st' h => by cases h; exact hinv.push ch _ rfl (Or.inl rfl)⟩
 
@@ -406,6 +408,19 @@ theorem listBar_inv (po : POps) (st : ListSt) (hinv : ListInv st) :
       cases h
       exact linkFront_ok hl
 
+theorem listStepTop_inv (po : POps) (pt : Text → Res Term) (hpt : ∀ s, pt s ≠ .panic)
+    (c : Char) (esc : Bool) (st : ListSt) (hinv : ListInv st) :
+    listStepTop po pt c esc st ≠ .panic ∧ ∀ st', listStepTop po pt c esc st = .ok st' → ListInv st' := by
+  unfold listStepTop
+  simp only
+  split
+  · exact ⟨by simp, fun st' h => by cases h; exact hinv⟩
+  split
+  · exact listComma_inv pt hpt st hinv
+  split
+  · exact listBar_inv po st hinv
+  · exact ⟨by simp, fun st' h => by cases h; exact hinv⟩
+
 theorem listStep_inv (po : POps) (pt : Text → Res Term) (hpt : ∀ s, pt s ≠ .panic)
     (c : Char) (esc : Bool) (st : ListSt) (hinv : ListInv st) :
     listStep po pt c esc st ≠ .panic ∧ ∀ st', listStep po pt c esc st = .ok st' → ListInv st' := by
@@ -424,13 +439,9 @@ theorem listStep_inv (po : POps) (pt : Text → Res Term) (hpt : ∀ s, pt s ≠
   split
   · exact ⟨by simp, fun st' h => by cases h; exact hinv⟩
   split
-  · split
-    · exact ⟨by simp, fun st' h => by cases h; exact hinv⟩
-    split
-    · exact listComma_inv pt hpt st hinv
-    split
-    · exact listBar_inv po st hinv
-    · exact ⟨by simp, fun st' h => by cases h; exact hinv⟩
+  · exact ⟨by simp, fun st' h => by cases h; exact hinv⟩
+  split
+  · exact listStepTop_inv po pt hpt c esc st hinv
   · exact ⟨by simp, fun st' h => by cases h; exact hinv⟩
 
 theorem listFinish_ne_panic (pt : Text → Res Term) (hpt : ∀ s, pt s ≠ .panic) (st : ListSt) (hinv : ListInv st) :
